@@ -325,8 +325,13 @@ prop('C16', level='other',
                  'assignment of the pinned tree fails this obligation), and changes nothing else; recompute_edges returns a new '
                  'table, leaves the input table and the thresholds untouched (frame obligations), keeps every column other than the '
                  'two consistencies and is_burst, and labels by the threshold-and-run rule applied to the edited table; growing q keeps '
-                 'old labels (lemma minrun_monotone). Bounded only: WHICH rows are edited (the cycles immediately outside each burst, '
-                 'direction looking into the burst) - synthetic tables with every is_burst pattern up to 6 (8) rows and corpus tables.')
+                 'old labels (lemma minrun_monotone). WHICH rows are edited is proved for an ARBITRARY burst (per-iteration postcondition, '
+                 'for tables whose first cycle is not a burst - what C06 guarantees): the change points of is_burst alternate rising / '
+                 'falling (parity of the number of changes before a position, by induction), the two comprehensions pick the even- / '
+                 'odd-numbered change points, so the rows handed to recompute_edge are the cycle immediately before the burst '
+                 '(recomputed looking forward) and the cycle immediately after it (looking backward), and after the iteration both '
+                 'rows carry exactly the one-sided C05 values (NaN at the table ends). Bounded cross-check: synthetic tables with every '
+                 'is_burst pattern up to 6 (8) rows and corpus tables.')
 
 prop('C17', level='other', units=['bycycle.cyclepoints.phase._merge_phases'], jobs=['phase'],
      unit_jobs={'bycycle.cyclepoints.phase._merge_phases': ['phase']},
